@@ -884,6 +884,20 @@ func (env *SpecEnv) special(name string, x *ast.CallExpr) (Value, bool) {
 		}
 		k := env.evalInt(x.Args[1])
 		return Sc{Select(env.st.heap("G|ghostarr."+id.Name+"|", ArraySort(IntSort, IntSort)), k), tInt}, true
+	case "unbox":
+		// unbox(x, T): the value of (non-pointer) type T boxed in interface value x
+		iv, ok := env.eval(x.Args[0]).(IfV)
+		if !ok {
+			specErr("unbox: first argument must be an interface value")
+		}
+		t := env.resolveType(x.Args[1])
+		if t == nil {
+			specErr("unbox: unknown type %s", exprStr(x.Args[1]))
+		}
+		if iv.Conc != nil && types.Identical(iv.Conc.Type(), t) {
+			return iv.Conc, true
+		}
+		return env.st.load(Loc{Kind: LHeap, Root: t, Ref: iv.Ref, Ty: t}), true
 	case "hastype":
 		// hastype(x, T): the dynamic type of interface value x is T
 		iv, ok := env.eval(x.Args[0]).(IfV)
